@@ -34,6 +34,7 @@ RUN_TIMEOUT_S = 600
 
 MODES = {"true": True, "false": False, "none": None}
 # faults after which the solver has visibly delivered nothing: an answer given anyway must still be the minimal one
+SLOW_SOLVER_S = 6.0
 HARD_FAILURES = ("exe_missing", "exit_before", "killed_before", "exit_after", "killed_after", "sol_missing", "sol_empty",
                  "mps_enospc", "mps_eio", "tmpdir_gone")
 Z2SYM = {z: s for s, z in C.ELEMENTS.items()}
@@ -711,6 +712,7 @@ _STALE_PRIMER = ("Optimal - objective value 8.00000000\n" + "".join(
 
 def execute(case):
     hist, viols, stats, states, outcome = [], [], {}, set(), []
+    volatile = [False]
     # the only state the seam keeps between invocations; reset so that a case is a pure function of itself.
     # primed with a well-formed solution file "left over from another problem" (all variables 1)
     cbc.WORLD.prev_sols = [_STALE_PRIMER]
@@ -797,6 +799,13 @@ def execute(case):
             else:
                 outcome.append([call["mode"], r["outcome"], r.get("result")])
         enum = case.get("enumerate")
+        if enum and not faults0 and any(x.get("elapsed", 0) > SLOW_SOLVER_S or x.get("solver_hung_killed") for x in rec["inv_log"]):
+            # the real solver needs many seconds for this integer program: enumerating ~100 faults on it would take longer
+            # than the run's wall cap.  Which instances are slow depends on the machine, so the run is marked volatile
+            # (excluded from the digest cross-checks); skipping faults can only lose coverage, never raise an alarm.
+            bump("probe:slow_solver_instance_fault_enumeration_skipped")
+            volatile[0] = True
+            continue
         if enum and not faults0 and rec["n_inv"] > 0:
             extra = sol_set_plans(case, call)
             for plan in enumerate_faults(rec, enum, enum.get("pairs", 0)) + (extra[:2] if enum.get("minimal") else extra):
@@ -822,7 +831,8 @@ def execute(case):
                     first["outcome"], second["outcome"]), {"mode": call["mode"], "dup": bool(call.get("dup"))})
                 v["case"] = explicit
                 viols.append(v)
-    return {"history": hist, "outcome": outcome, "violations": _dedup(viols), "stats": stats, "states": sorted(states, key=repr)}
+    return {"history": hist, "outcome": outcome, "violations": _dedup(viols), "stats": stats, "states": sorted(states, key=repr),
+            "volatile": volatile[0]}
 
 
 def _dedup(viols):
